@@ -23,10 +23,12 @@ type heldReq struct {
 }
 
 type peer struct {
-	t   testing.TB
-	tr  *tracer
-	c2s *bpipe // client -> peer
-	s2c *bpipe // peer -> client
+	extFlag uint32 // 0x80000000: attribute blocks of STAT-like replies carry an extended attribute
+	dots    bool   // the first READDIR batch starts with "." and ".."
+	t       testing.TB
+	tr      *tracer
+	c2s     *bpipe // client -> peer
+	s2c     *bpipe // peer -> client
 
 	mu         sync.Mutex
 	cond       *sync.Cond
@@ -162,9 +164,9 @@ func (p *peer) defaultReply(f wframe) []byte {
 		}
 		return fStatus(f.ID, 0, "")
 	case tStat, tLstat:
-		return fAttrs(f.ID, wattrs{Flags: 1 | 4, Size: peerStatSize(f.Path), Perm: 0o100644})
+		return fAttrs(f.ID, wattrs{Flags: 1 | 4 | p.extFlag, Size: peerStatSize(f.Path), Perm: 0o100644, Ext: [][2]string{{"vendor@example.com", "v1"}}})
 	case tFstat:
-		return fAttrs(f.ID, wattrs{Flags: 1 | 4, Size: uint64(len(p.file(f.Handle))), Perm: 0o100644})
+		return fAttrs(f.ID, wattrs{Flags: 1 | 4 | p.extFlag, Size: uint64(len(p.file(f.Handle))), Perm: 0o100644, Ext: [][2]string{{"vendor@example.com", "v1"}}})
 	case tReadlink:
 		return fName(f.ID, []wname{{Name: peerLink(f.Path), Long: peerLink(f.Path)}})
 	case tRealpath:
@@ -176,6 +178,9 @@ func (p *peer) defaultReply(f wframe) []byte {
 			return fStatus(f.ID, 1, "EOF")
 		}
 		var names []wname
+		if p.dots && n == 0 {
+			names = append(names, wname{Name: ".", Long: "d .", A: wattrs{Flags: 4, Perm: 0o40755}}, wname{Name: "..", Long: "d ..", A: wattrs{Flags: 4 | p.extFlag, Perm: 0o40755, Ext: [][2]string{{"a@b", "c"}}}})
+		}
 		for i := 0; i < 3; i++ {
 			nm := fmt.Sprintf("e%d-%08x", n*3+i, hash32(f.Handle))
 			names = append(names, wname{Name: nm, Long: "long " + nm, A: wattrs{Flags: 1 | 4, Size: uint64(n*3 + i), Perm: 0o100644}})
